@@ -77,6 +77,14 @@ var snippets = []snippet{
 	{"iface-imported-types", "import (\n\t\"io\"\n\t\"io/fs\"\n\t\"time\"\n)", "type IX interface {\n\tX(r io.Reader, t time.Time) (fs.FileInfo, error)\n}", false},
 	{"iface-two-packages-same-name", "import (\n\thtemplate \"html/template\"\n\tttemplate \"text/template\"\n)", "type IT interface {\n\tT(a *ttemplate.Template, b *htemplate.Template)\n}", false},
 	{"iface-embeds-stdlib", "import \"io\"", "type IRW interface {\n\tio.Reader\n\tFlush() error\n}", false},
+	{"iface-embeds-third-package", "import \"io/fs\"", "type IFI interface {\n\tfs.FileInfo\n\tExtra() int\n}", true},
+	{"iface-embeds-third-package-2", "import \"net\"", "type IC interface {\n\tnet.Conn\n\tID() string\n}", false},
+	{"iface-alias-third-package", "import \"io/fs\"", "type AFI = fs.FileInfo\n\ntype ADE = fs.DirEntry", false},
+	{"iface-embeds-two-levels", "import \"net/http\"", "type IRT interface {\n\thttp.RoundTripper\n\thttp.Handler\n}", false},
+	{"iface-string-other-signature", "", "type ISo interface{ String(n int) int }", false},
+	{"constraint-with-method", "", "type NumS interface {\n\t~int | ~int64\n\tString() string\n}", false},
+	{"iface-any-embedded", "", "type IAny interface{ any }", false},
+	{"iface-unexported-type-in-method", "", "type hidden struct{}\n\ntype IH interface{ H(h hidden) int }", false},
 	{"iface-map-chan-params", "", "type IM interface{ M(m map[string][]int, c chan<- bool, a [3]byte) <-chan int }", false},
 }
 
@@ -326,7 +334,7 @@ func main() {
 	r.Set("wrapper_methods_checked", res.Counts["wrapper_methods"])
 	r.Set("distinct_nontrivial", res.Counts["nontrivial_packages"])
 	r.Set("exhaustive", len(res.Abnormal) == 0)
-	r.Set("rule", "every non-internal package of `go list std` + generated packages: each of 47 declaration snippets alone and in pairs (quick: pairs of the core snippets) + a sweep of untyped constants extracted alone (string lengths 0..5000 across the printing thresholds in plain / escaped / multi-byte / raw form, integers of 1..120 digits of both signs, floats with extreme exponents and long mantissas, runes, complex); non-trivial = packages for which extract produced at least one binding; each generated file is type-checked and every entry / wrapper / the key set is compared with the go/types package of the input")
+	r.Set("rule", "every non-internal package of `go list std` + generated packages: each of 55 declaration snippets alone and in pairs (quick: pairs of the core snippets) + a sweep of untyped constants extracted alone (string lengths 0..5000 across the printing thresholds in plain / escaped / multi-byte / raw form, integers of 1..120 digits of both signs, floats with extreme exponents and long mantissas, runes, complex); non-trivial = packages for which extract produced at least one binding; each generated file is type-checked and every entry / wrapper / the key set is compared with the go/types package of the input")
 	r.Assumptions = []string{"go/types package of the input (source importer) is the reference", "os and log: the 7 documented restricted replacements are emitted by extract by design and are accepted"}
 	r.Sample(ks[0])
 	r.Sample(ks[nStd])
